@@ -16,6 +16,7 @@ func init() {
 		func(c *Ctx) {
 			c.run("C06-R1", "LITERAL: printer and detector agree on the trigger grammar", c06R1)
 			c.run("C06-R2", "WHO-CALLS/GUARD-DOM: exactly one start per detection; suppression tests precede a trigger", c06R2)
+			c.run("C06-R7", "ORDER: one detector per pump, made before the read loop (it remembers the ids it has seen)", c06OneDetector)
 			c.run("C06-R4", "LITERAL/GUARD-DOM: the trigger's mode letter selects its action", c06Dispatch)
 			c.run("C06-S1", "shared with C16-R8: the repeated-id test asks the environment predicate (a Windows console on the path, not only a Windows host)", c16WinPredicates)
 			c.run("C06-S2", "shared with C05-R4: the handler gives the session up on every exit (also when the transfer goes to the background), so the next trigger starts a transfer", c05R4)
@@ -740,6 +741,45 @@ func c06Dispatch(c *Ctx) {
 		}
 		if !found {
 			c.bad(m.fn+"/mode-letter", c.pos(mf.Pos()), "the trigger line is no longer printed here")
+		}
+	}
+}
+
+// c06OneDetector: the repeated-id test works on what the detector has seen before, so the detector must live as long
+// as the pump. In both output pumps the detector whose detectTrzsz is called is made by one newTrzszDetector call
+// that is not inside the read loop (no path leads from the read back to that call).
+func c06OneDetector(c *Ctx) {
+	for _, name := range []string{"TrzszFilter.wrapOutput", "TrzszRelay.wrapOutput"} {
+		f := c.fn(name)
+		var read ssa.Instruction
+		eachInstr(f, func(in ssa.Instruction) {
+			if call, ok := in.(*ssa.Call); ok && call.Call.IsInvoke() && call.Call.Method.Name() == "Read" {
+				read = in
+			}
+		})
+		if read == nil {
+			c.lost("Read in " + name)
+		}
+		dets := callsIn(f, idIs("(*trzsz.trzszDetector).detectTrzsz"))
+		if len(dets) == 0 {
+			c.lost("detectTrzsz call in " + name)
+		}
+		for _, d := range dets {
+			good := true
+			n := 0
+			for _, l := range origins(d.Common().Args[0], originOpts{}) {
+				mk, _ := callOf(l.V)
+				if mk == nil || calleeID(&mk.Call) != "trzsz.newTrzszDetector" {
+					good = false
+					continue
+				}
+				n++
+				hit, _ := reachFrom(read.Block(), instrIndex(read)+1, func(in ssa.Instruction) bool { return in == ssa.Instruction(mk) }, nil)
+				if hit != nil {
+					good = false
+				}
+			}
+			c.check(good && n == 1, name+"/detector-made-once", c.ipos(d), "the pump's detector is made once, before the read loop", "the detector is made anew inside the read loop (or its origin is not a single newTrzszDetector call): the ids already seen are forgotten, a redrawn trigger starts a second transfer")
 		}
 	}
 }
